@@ -160,19 +160,22 @@ PROP = dict(
                "fee vault + operator vault credits + blob fee (nothing else burnt or created); lemma_op_deposit_net: a deposit's balance changes by "
                "+ mint - price*used (price 0 on OP: exactly + mint), vaults and beneficiary get nothing; lemma_reward_chain_exact / "
                "lemma_reward_compose (composition of the four credits).",
-    level_note="FIXED during the build: operator_fee_refund did not divide by 1e6 (refund 1e6 times too large; through Evm::transact at Isthmus the "
-               "sender GAINED 78_999_899_950 wei) -- /repo 2a9bd4c6, demo mutations/C33/demos/operator_fee.rs. FINDINGS (twins fail, "
-               "known_findings.txt, demos in mutations/C33/demos): deposit_type_byte_7f (calculate_tx_l1_cost tests 0x7F, the OP deposit type is "
+    level_note="FIXED in /repo during the build (each demonstrated on the real crate, demos in mutations/C33/demos, both test suites pass): "
+               "2a9bd4c6 operator_fee_refund did not divide by 1e6 (refund 1e6 times too large; through Evm::transact at Isthmus the sender GAINED "
+               "78_999_899_950 wei; operator_fee.rs); c791953a optimism::validate_env skipped validate_block_env for deposits, so a Cancun+ block "
+               "env without blob_excess_gas_and_price made Evm::transact PANIC (`expect(\"already checked\")` in deduct_caller_inner) for a "
+               "deposit (deposit_panic.rs) -- now validate_env's postcondition establishes deduct_caller's Cancun precondition for EVERY "
+               "transaction; bcb02e64 the EIP-2681 rule (nonce 2^64-1) was missing in the Optimism copy of validate_tx_against_state (nonce_max.rs). "
+               "FINDINGS (twins fail, known_findings.txt, demos): deposit_type_byte_7f (calculate_tx_l1_cost tests 0x7F, the OP deposit type is "
                "0x7E; not observable through Evm::transact; pinned by the crate's tests), mint_wraps (deduct_caller `+=` wraps; `end` saturates), "
-               "vault_credit_wraps (vault `+=` and basefee `mul` wrap). OBSERVATIONS reported to the lead, demonstrated, NOT obligations: "
-               "(a) optimism::validate_env skips validate_block_env for deposits, so deduct_caller's precondition `Cancun => blob_excess_gas_and_price "
-               "is Some` is not established for them: Evm::transact PANICS (`expect(\"already checked\")`) for a deposit in such a block env "
-               "(deposit_panic.rs); (b) the EIP-2681 rule added to Env::validate_tx_against_state (52c6d0f9) is missing in the Optimism copy "
-               "(contract: state_reason_p(.., enforce_2681 = false)); (c) a deposit that fails PRE-VERIFICATION (gas limit below intrinsic gas) "
-               "returns Err(CallGasCostMoreThanGasLimit) from Evm::transact before `end` runs: no FailedDeposit receipt, mint and nonce bump NOT "
-               "persisted (deposit_intrinsic.rs) -- wiring of evm.rs, outside every function contract; (d) blob (type-3) transactions are not "
-               "rejected although Ecotone disables them: their blob fee B is burnt (explicit term of the conservation lemma); (e) pre-Regolith "
-               "REVERTED system deposits report gas used == gas limit (success: 0), as the code comment says. READING: 'reimburse NOT for "
+               "vault_credit_wraps (vault `+=` and basefee `mul` wrap; its twin is checked WITHOUT proof hints to keep the refutation cheap -- it "
+               "fails with them as well). OBSERVATIONS about TRUSTED WIRING, demonstrated, no obligation possible, no fix: (c) a deposit that "
+               "fails PRE-VERIFICATION (gas limit below the intrinsic gas) makes Evm::transact return Err(CallGasCostMoreThanGasLimit) before the "
+               "`end` handle runs: no FailedDeposit receipt, mint and nonce bump NOT persisted (deposit_intrinsic.rs) -- the property's 'even when "
+               "it fails' clause therefore holds only for failures AFTER pre-verification; (d) blob (type-3) transactions are not rejected "
+               "although Ecotone disables them: their blob fee B is burnt (explicit term of the conservation lemma); (e) pre-Regolith REVERTED "
+               "system deposits report gas used == gas limit (successful ones 0), as the code comment says. "
+               "READING: 'reimburse NOT for "
                "deposits' holds for the operator fee refund (and L1 cost); the gas reimbursement price*unused mirrors what deduct_caller_inner "
                "charged (both 0 at the deposit gas price 0). 'OutOfFunds error iff insufficient': deduct_caller never fails for lack of funds "
                "(saturating subtraction); validate_tx_against_state is the only check, and only for non-deposits. Balances are stated for "
@@ -186,8 +189,11 @@ PROP = dict(
                "built with rewards on); `end` (closure capturing `context` mutably: 'not currently supported'; Kani ICEs on crate revm) -- the "
                "failed-deposit clause (nonce bumped, mint persisted, FailedDeposit gas rules) is TRUSTED BY READING, pinned by hash; "
                "L1BlockInfo::try_fetch (Database answers have no contract; `.then(|| ..).transpose()?`) -- assumed to deliver both operator fee "
-               "attributes from Isthmus on; load_precompiles (precompile sets, not fee related); fast_lz::flz_compress_len (result "
-               "UNINTERPRETED flz_len(input); its text is compiled into the unit but not verified).",
+               "attributes from Isthmus on; load_precompiles (precompile sets, not fee related); fast_lz::flz_compress_len: its RESULT is the UNINTERPRETED "
+               "flz_len(input) (external_body copy that the cost functions call: the only assumption is determinism of a pure function); a second "
+               "copy of the verbatim text and its six helpers (literals, cmp, flz_match, set_next_hash, hash, u24) IS verified for PANIC-FREEDOM: "
+               "every slice / hash-table index in range and no u32 overflow for every input shorter than 2^30 bytes (loop invariants: table "
+               "entries < idx, size <= 2*anchor, anchor + 5 <= len).",
     trusted=COMMON_TRUST + [
         "cargo feature `optimism`: both units are linked against a second rlib set (`cargo +1.98.1 build -p revm --features optimism`)",
         "units/prelude/ruint.rs (ruint contracts), prelude/state.rs (real JournaledState/Account declarations, AccountStatus bit model, HashMap "
@@ -199,7 +205,8 @@ PROP = dict(
         "ASSUMED std: core::slice::Iter::fold is the left fold (relation fold_rel); Box::as_ref; StateLoad Deref/DerefMut is `data`; EvmContext "
         "Deref/DerefMut is `inner`; Bytes::clone is the same bytes; SuccessOrHalt::from uninterpreted; Uint::default() == 0; ruint AddAssign wraps",
         "ASSUMED: L1BlockInfo::try_fetch returns a block info without cached cost and, from Isthmus on, with both operator fee attributes",
-        "ASSUMED: flz_compress_len(input) == flz_len(input) (uninterpreted; external_body on the verbatim text)",
+        "ASSUMED: flz_compress_len(input) == flz_len(input) (uninterpreted function of the bytes: determinism; external_body copy of the verbatim "
+        "text -- its panic-freedom is proved on a second copy)",
         "wrappers OP_L1_FEE_RECIPIENT / OP_BASE_FEE_RECIPIENT / OP_OPERATOR_FEE_RECIPIENT (body = the real constants, uninterpreted values; "
         "their literals 0x4200..001A / ..0019 / ..001B pinned by census)",
         "recorded substitutions: SPEC::SPEC_ID -> spec_id_exec::<SPEC>(), SPEC::enabled(REGOLITH) -> SPEC::enabled(SpecId::REGOLITH) (path), "
@@ -214,11 +221,11 @@ PROP = dict(
     assumptions=[
         "FINDINGS deposit_type_byte_7f, mint_wraps, vault_credit_wraps: the verified contracts state what the code does (0x7F; `% 2^256`), the "
         "property-level twins fail and are listed in known_findings.txt",
-        "envelope shorter than 2^60 bytes (the byte-cost fold adds at most 16 per byte in u64)",
+        "envelope shorter than 2^30 bytes (FastLZ estimator: u32 positions; the byte-cost fold adds at most 16 per byte in u64)",
         "operator_fee_charge / operator_fee_refund / the non-deposit handlers: from Isthmus on the block info carries operator_fee_scalar and "
         "operator_fee_constant (`.expect(..)` otherwise; try_fetch reads them); non-deposit handlers: l1_block_info is Some "
         "(validate_tx_against_state establishes it: postcondition l1_ready)",
-        "deduct_caller: Cancun => blob_excess_gas_and_price is Some (validate_env establishes it for NON-deposits only: observation (a)); fewer "
+        "deduct_caller: Cancun => blob_excess_gas_and_price is Some (validate_env's postcondition, for every transaction since c791953a); fewer "
         "than 2^47 blob hashes",
         "last_frame_return: returned meter well formed, remaining <= tx.gas_limit; refund / reimburse / reward / output: refund counter >= 0, "
         "0 <= refunded <= spent, meter limit == tx.gas_limit (postconditions of last_frame_return / refund)",
